@@ -65,6 +65,7 @@ func Run(p *load.Program, tier string) *oblig.Set {
 	r.captures()
 	r.helperRules()
 	r.jumpRules()
+	r.atonRule()
 	r.dflt()
 	r.effects()
 	return s
